@@ -148,7 +148,7 @@ impl BuildJob<'_> {
             // Fall through and treat it the same as a static file.
         }
         if Path::new(&t).symlink_metadata().is_ok()
-            && !Path::new(&t).join(".").is_dir()
+            && !helpers::is_dir_nofollow(Path::new(&t))
             && (sf.is_override || !sf.is_generated())
         {
             // an existing source file that was not generated by us.
